@@ -685,7 +685,7 @@ func rulePlanPriority(c *Ctx) {
 
 func init() {
 	register("C08", "Generated operator steps are safe and reach the requested placement", func(c *Ctx) {
-		c.Group("C08/planner-state", "steps are emitted only by the exec helpers, each of which applies its step to the simulated region state and consumes the pending task, on every path", func() { ruleBuilderState(c) })
+		c.Group("C08/planner-state", "steps are emitted only by the exec helpers, each of which applies its step to the simulated region state and consumes the pending task, on every path", func() { ruleBuilderState(c); rulePlanCompletes(c) })
 		c.Group("C08/leader-candidates", "target leaders and planned hand-over leaders passed allowLeader and are never the store being removed/demoted; allowLeader rejects learners, demoting voters and unknown stores; hand-over precedes demote/remove", func() { ruleLeaderCandidates(c); ruleForceFlagOwnership(c); ruleLeaderRoleRules(c) })
 		c.Group("C08/plan-priority", "one-at-a-time planning considers demote/remove only after replace and promote are exhausted", func() { rulePlanPriority(c) })
 		c.Group("C08/replace-plans", "a replace plan never adds on the store it removes from", func() { ruleReplacePlans(c) })
@@ -694,4 +694,44 @@ func init() {
 		c.Group("C08/step-safety", "every step kind has a precondition check (leader protection) and a send case", func() { ruleStepSafety(c); ruleStepSwitchExhaustive(c); ruleStepPreconditionsMatchPlanner(c) })
 		c.Group("C08/id-kind", "(shared with C09) store ids and peer ids are not mixed in the planner", func() { ruleIDKinds(c, "server/schedule/operator", "server/schedule") })
 	})
+}
+
+// rulePlanCompletes: the one-at-a-time planner reports success only when
+// nothing is left to do: every nil-error return of
+// buildStepsWithoutJointConsensus follows the exit test of its loop — all four
+// pending sets empty, tested after the last planning call. Leaving the loop on
+// an empty plan would return a truncated operator that finishes successfully
+// short of the requested placement. And leaving a joint state promotes exactly
+// the incoming voters and demotes exactly the demoting voters.
+func rulePlanCompletes(c *Ctx) {
+	P := c.P
+	const op = "server/schedule/operator"
+	rule := c.Prop + "/planner-state"
+	fn := P.Method(op, "Builder", "buildStepsWithoutJointConsensus")
+	var evs []Ev
+	// a new planning round starts: what the loop test said before it no longer counts
+	touches := instrCallMatcher(F(P.Method(op, "Builder", "peerPlan")))
+	for _, f := range []string{"toAdd", "toRemove", "toPromote", "toDemote"} {
+		g := guardRel("len(b."+f+") == 0", "== <=", lenOf(loadOfField(P.Field(op, "Builder", f))), isConstInt(0))
+		g.invalidate = touches
+		evs = append(evs, g)
+	}
+	c.need(rule, fn, "successful return", func(x ssa.Instruction) bool { r, ok := x.(*ssa.Return); return ok && retIsNilErr(r) }, evs, all,
+		"planning succeeds only when no pending addition, removal, promotion or demotion is left (an empty plan with work left is an error)")
+	// leave-joint: who is promoted, who is demoted
+	lj := P.Func(op, "CreateLeaveJointStateOperator")
+	getRole := F(P.Method("github.com/pingcap/kvproto/pkg/metapb", "Peer", "GetRole"))
+	set := F(P.Method(op, "peersMap", "Set"))
+	for _, spec := range []struct {
+		field string
+		role  int64
+		name  string
+	}{{"toPromote", 2, "IncomingVoter"}, {"toDemote", 3, "DemotingVoter"}} {
+		f := P.Field(op, "Builder", spec.field)
+		c.need(rule, lj, "peer filed under "+spec.field, func(x ssa.Instruction) bool {
+			cl, ok := x.(*ssa.Call)
+			return ok && set.Match(cl.Common()) && len(cl.Call.Args) == 2 && isLoadOf(cl.Call.Args[0], f)
+		}, []Ev{guardRel("role == "+spec.name, "==", resultOfCall(getRole), isConstInt(spec.role))}, all,
+			"leaving the joint state "+map[string]string{"toPromote": "promotes", "toDemote": "demotes"}[spec.field]+" exactly the peers whose role is "+spec.name+" (a plain learner or voter is not part of the leave step)")
+	}
 }
